@@ -360,6 +360,36 @@ def inner(ctx, R_):
             dc = E.DCase(tok, key, None, None, "inner-zip")
             R_.call("jwe.decrypt_compact", f"zip inner {s[:12]!r} {enc}", lambda dc=dc: dc.run_impl(), dc if len(s) < 5000 else None)
             R_.call("jwt.decode(jwe)", f"zip inner {s[:12]!r} {enc}", lambda: jwt.decode(tok, key, registry=jwe.JWERegistry(algorithms=E.ALL_NAMES)))
+    # AES-CBC-HMAC tokens whose tag is RIGHT (anyone who chooses the CEK can make them: the holder of a shared key, or any
+    # sender to a public key) but whose ciphertext is not the encryption of a padded plaintext: empty, not a whole number
+    # of blocks, blocks that decrypt to every kind of bad padding (last octet 0, 17 ... 255, inconsistent run, all-padding)
+    import hashlib as _hl
+    import hmac as _hm
+    import struct as _st
+    from cryptography.hazmat.primitives.ciphers import Cipher as _Ci, algorithms as _al, modes as _mo
+    for enc, klen, hname, kn in (("A128CBC-HS256", 16, "sha256", "oct32"), ("A256CBC-HS512", 32, "sha512", "oct64")):
+        key = K.key(kn)
+        cek = key.raw_value
+        pseg = jb({"alg": "dir", "enc": enc})
+        iv = b"i" * 16
+
+        def enc_raw(blocks, cek=cek, klen=klen, iv=iv):
+            c = _Ci(_al.AES(cek[klen:]), _mo.CBC(iv)).encryptor()
+            return c.update(blocks) + c.finalize()
+        plain_blocks = [b"", b"\x00" * 16, b"A" * 15 + b"\x00", b"A" * 15 + b"\x11", b"A" * 15 + b"\xff", b"A" * 14 + b"\x01\x02", b"\x10" * 16, b"\x10" * 15 + b"\x0f",
+                        b"A" * 16 + b"B" * 13 + b"\x03\x03\x02", bytes(rng.randrange(256) for _ in range(32)), b"\x20" * 32]
+        cts = [enc_raw(pb) for pb in plain_blocks] + [b"\x01" * 15, b"\x02" * 17, b"\x03"]
+        for ct in cts:
+            aad = pseg
+            tag = _hm.new(cek[:klen], aad + iv + ct + _st.pack(">Q", len(aad) * 8), getattr(_hl, hname)).digest()[:klen]
+            tok = b".".join([pseg, b"", b64(iv), b64(ct), b64(tag)])
+            R_.call("jwe.decrypt_compact", f"cbc valid tag, ciphertext of {len(ct)} octets {ct[:6].hex()} {enc}",
+                    lambda tok=tok, key=key: jwe.decrypt_compact(tok, key, registry=jwe.JWERegistry(algorithms=E.ALL_NAMES)))
+            R_.call("jwt.decode(jwe)", f"cbc valid tag, ciphertext of {len(ct)} octets {ct[:6].hex()} {enc}",
+                    lambda tok=tok, key=key: jwt.decode(tok, key, registry=jwe.JWERegistry(algorithms=E.ALL_NAMES)))
+            jv = {"protected": pseg.decode(), "iv": b64(iv).decode(), "ciphertext": b64(ct).decode(), "tag": b64(tag).decode()}
+            R_.call("jwe.decrypt_json", f"cbc valid tag, ciphertext of {len(ct)} octets {ct[:6].hex()} {enc}",
+                    lambda jv=jv, key=key: jwe.decrypt_json(dict(jv), key, registry=jwe.JWERegistry(algorithms=E.ALL_NAMES)))
     # primitive fault injection: zlib raising its documented error at the k-th decompress() call of one object
     import joserfc.rfc7518.jwe_zips as ZM
 
